@@ -9,7 +9,7 @@
 // the harness and stale links are use-after-free): the first operation is a driver parameter, the others and all
 // operands are the solver's choice:
 //   0 connect a callback        1 destroy a connection        2 call a signal (symbolic initial value and argument)
-//   3 move-construct a signal   4 move-assign a signal        5 destroy a signal (before its connections)
+//   3 move-construct a signal   4 move-assign a signal (also onto itself)   5 destroy a signal (before its connections)
 //   6 construct a signal
 // Callback k returns an uninterpreted function f(k, arg) and appends k to a call log; the combiner of the signal created
 // as number c is an uninterpreted function g(c, state, value) and travels with the signal when it is moved.
@@ -222,7 +222,11 @@ void apply(world<U> &w, unsigned const op)
   case 4:
   {
     unsigned const d{usable_signal(w, "d", true)}, s{usable_signal(w, "s", false)};
-    verif_assume(d != s);
+    if (d == s)
+    {
+      *w.S[d] = std::move(*w.S[s]); // self-move-assignment: the signal keeps connections and combiner
+      break;
+    }
     if (w.avoid) verif_assume(!(w.cnt[s] == 0 && w.cnt[d] != 0)); // D1
     *w.S[d] = std::move(*w.S[s]);
     w.cnt[d] = w.cnt[s];
